@@ -12,21 +12,29 @@ import (
 
 // DFSArg is the unit argument of a sharded writer-world search.
 type DFSArg struct {
-	Kind    string `json:"kind"`
-	Writers int    `json:"writers"`
-	Depth   int    `json:"depth"`
-	Alpha   string `json:"alpha"`
-	Shards  int    `json:"shards"`
-	Shard   int    `json:"shard"`
-	Dup     bool   `json:"dup"`
-	SD      int    `json:"sd"` // shard depth (default 2)
-	Restart bool   `json:"restart"` // also offer restart + Load(-1) of every replica
+	Kind     string `json:"kind"`
+	Writers  int    `json:"writers"`
+	Depth    int    `json:"depth"`
+	Alpha    string `json:"alpha"`
+	Shards   int    `json:"shards"`
+	Shard    int    `json:"shard"`
+	Dup      bool   `json:"dup"`
+	SD       int    `json:"sd"`       // shard depth (default 2)
+	Restart  bool   `json:"restart"`  // also offer restart + Load(-1) of every replica
+	SnapLive bool   `json:"snaplive"` // also offer saving a snapshot and loading it later on the running store
+	Fault    bool   `json:"fault"`    // also offer merges during which the write of the cached remote heads fails
 }
 
 func (a DFSArg) Name() string {
 	r := ""
 	if a.Restart {
 		r = "+restart"
+	}
+	if a.SnapLive {
+		r += "+snapshot-on-running-store"
+	}
+	if a.Fault {
+		r += "+faulty-merges"
 	}
 	return fmt.Sprintf("%s/w%d/d%d/%s%s/shard%d.%d", a.Kind, a.Writers, a.Depth, a.Alpha, r, a.Shard, a.Shards)
 }
@@ -150,7 +158,7 @@ func runWritersDFS(c *explore.Ctx, prop string, ops func(a DFSArg) []WOp, setup 
 		sd = a.Depth
 	}
 	d := &explore.DFS{
-		Scenario: a.Name(), Space: fmt.Sprintf("%s/w%d/%s/restart=%v", a.Kind, a.Writers, a.Alpha, a.Restart),
+		Scenario: a.Name(), Space: fmt.Sprintf("%s/w%d/%s/restart=%v/snaplive=%v/fault=%v", a.Kind, a.Writers, a.Alpha, a.Restart, a.SnapLive, a.Fault),
 		New: func() (explore.World, error) {
 			w, err := NewWriters(a.Kind, a.Writers, ops(a))
 			if err != nil {
@@ -159,6 +167,8 @@ func runWritersDFS(c *explore.Ctx, prop string, ops func(a DFSArg) []WOp, setup 
 			w.Mem = mem
 			w.Dup = a.Dup
 			w.Reload = a.Restart
+			w.SnapshotLive = a.SnapLive
+			w.FaultyMerge = a.Fault
 			setup(w, a)
 			return w, nil
 		},
@@ -176,7 +186,7 @@ func runWritersDFS(c *explore.Ctx, prop string, ops func(a DFSArg) []WOp, setup 
 func init() {
 	explore.Register(&explore.CheckDef{
 		ID: "C06", Level: "model_checking",
-		Rule: "explicit-state DFS (replay on fresh real instances, visited-state pruning) over all sequences of Put/Delete by each writer and merge(i<-j) actions (one unit also offers restart + Load of any replica) up to the depth bound; oracle after every step on every replica: Get/All == last-writer-wins replay of OpLog().Values(), and Values() lists every entry after its ancestors. Non-trivial = distinct states in which some replica holds entries of two writers.",
+		Rule: "explicit-state DFS (replay on fresh real instances, visited-state pruning) over all sequences of Put/Delete by each writer and merge(i<-j) actions (one unit also offers restart + Load of any replica, one offers merges during which the write of the cached remote heads fails) up to the depth bound; oracle after every step on every replica: Get/All == last-writer-wins replay of OpLog().Values(), and Values() lists every entry after its ancestors. Non-trivial = distinct states in which some replica holds entries of two writers.",
 		Units: func(tier string) []explore.Unit {
 			if tier == "thorough" {
 				u := shardUnits(DFSArg{Kind: "keyvalue", Writers: 2, Depth: 5, Alpha: "core"}, 48)
@@ -190,6 +200,7 @@ func init() {
 			u = append(u, shardUnits(DFSArg{Kind: "keyvalue", Writers: 3, Depth: 3, Alpha: "tiny"}, 16)...)
 			u = append(u, shardUnits(DFSArg{Kind: "keyvalue", Writers: 1, Depth: 3, Alpha: "values"}, 8)...)
 			u = append(u, shardUnits(DFSArg{Kind: "keyvalue", Writers: 2, Depth: 4, Alpha: "tiny", Restart: true}, 16)...)
+			u = append(u, shardUnits(DFSArg{Kind: "keyvalue", Writers: 2, Depth: 4, Alpha: "twokeys", Fault: true}, 8)...)
 			return u
 		},
 		Budget: func(tier string) float64 {
